@@ -69,6 +69,12 @@ void wbxml_tree_clb_wbxml_start_element(void *ctx, WBXMLTag *element, WBXMLAttri
     if (tree_ctx->error != WBXML_OK)
         return;
 
+    /* Have we added a CDATA section ? An element ends it: go back to the
+     * element that owns the CDATA section (markup inside a CDATA section
+     * would be character data for the reader of the generated XML). */
+    if ((tree_ctx->current != NULL) && (tree_ctx->current->type == WBXML_TREE_CDATA_NODE))
+        tree_ctx->current = tree_ctx->current->parent;
+
     /* Add a new Node to tree */
     tree_ctx->current = wbxml_tree_add_elt_with_attrs(tree_ctx->tree,
                                                       tree_ctx->current,
